@@ -135,6 +135,12 @@ def entry_family(rng, k):
     return s, "entry-shift(%+.0f)" % shift
 
 
+import region_model
+import assemble_model
+REGION_REC = region_model.RegionRecorder(max_records=50, stride=5, max_atoms=400)
+ASSEMBLE = []
+
+
 def recorded_runs(ctx, nrun, directed=False):
     """real get_clusters runs with the finder recorded: the recorded history replayed through the Lean pipeline must
     give the returned clusters; the invariants of the property are checked on the real output"""
@@ -158,8 +164,10 @@ def recorded_runs(ctx, nrun, directed=False):
         case = {"atoms": crystals.atoms_to_json(a), "params": params, "seed": seed, "kind": kind}
         zero_pbc = any((not np.array(a.get_cell())[i].any()) and a.get_pbc()[i] for i in range(3))
         try:
-            with SC.FinderRecorder() as rec, SC.ProtoRecorder() as prec:
+            with SC.FinderRecorder() as rec, SC.ProtoRecorder() as prec, REGION_REC:
                 clusters = shared.get_clusters(a, seed=seed, **params)
+            if len(ASSEMBLE) < 80:
+                ASSEMBLE.extend(prec.assemble[:2])
             proto_records.extend(prec.records)
             if len(adaptive_records) < 600:
                 adaptive_records.extend(prec.adaptive[:60])
@@ -299,6 +307,8 @@ def run(ctx):
         broken.append(("driver", {"error": str(e)[-1000:]}))
     if mism:
         broken.append(("correspondence", {"count": len(mism), "mismatches": mism[:5]}))
+    region_model.check(ctx, broken, REGION_REC.records)
+    assemble_model.check(ctx, broken, ASSEMBLE)
     seen = set()
     for b in bad:
         key = "%s:%s" % (b["case"]["kind"], b["complaints"][0][:40])
